@@ -55,7 +55,8 @@ impl ShareProof {
             );
         }
 
-        let mut shares_needed = 0;
+        // ranges come from the network, their total may not fit the type of a single one
+        let mut shares_needed = 0u64;
         for proof in &self.share_proofs {
             if proof.is_of_absence() {
                 bail_verification!("only presence proofs allowed");
@@ -64,10 +65,10 @@ impl ShareProof {
                 bail_verification!("proof without data");
             }
 
-            shares_needed += proof.end_idx() - proof.start_idx();
+            shares_needed += u64::from(proof.end_idx() - proof.start_idx());
         }
 
-        if shares_needed as usize != self.data.len() {
+        if shares_needed != self.data.len() as u64 {
             bail_verification!(
                 "shares needed ({}) != proof's data length ({})",
                 shares_needed,
